@@ -60,6 +60,9 @@ type Case struct {
 	// UnlimOnly: the whole profile is `unlimited` for DurMs: every request is scheduled for the moment
 	// it is drawn, so none can be late — however slow the target, nothing may be discarded
 	UnlimOnly bool   `json:"unlimited_only,omitempty"`
+	// Once > 0: the profile is `once` with that many requests, all scheduled for the same instant
+	// (optionally followed by a const part of DurMs): how late each is depends on when it is drawn
+	Once int `json:"once_times,omitempty"`
 	Lead      string `json:"leading_empty_stretch,omitempty"`
 	LeadMs    int    `json:"lead_ms,omitempty"`
 }
@@ -72,6 +75,10 @@ func runCase(res *vkit.Result, c Case) {
 	var lead time.Duration
 	if c.UnlimOnly {
 		inner = schedule.NewUnlimited(d)
+	} else if c.Once > 0 && c.From > 0 {
+		inner = schedule.NewComposite(schedule.NewOnce(int64(c.Once)), schedule.NewConst(c.From, d))
+	} else if c.Once > 0 {
+		inner = schedule.NewOnce(int64(c.Once))
 	} else if c.Lead == "step0" {
 		inner = schedule.NewStep(0, 2*c.From, int64(c.From), d)
 		lead = d
@@ -280,6 +287,12 @@ func base() []Case {
 		{Name: "leading-empty-stretch", Instances: 4, From: 10, DurMs: 500, Discard: true, ShotMs: 1, StallAt: -1, Lead: "step0"},
 		{Name: "leading-empty-stretch", Instances: 2, From: 20, DurMs: 400, Discard: false, ShotMs: 0, StallAt: -1, Lead: "step0"},
 		{Name: "leading-empty-stretch", Instances: 2, From: 20, DurMs: 600, Discard: true, ShotMs: 1, StallAt: -1, Lead: "pause", LeadMs: 400},
+		// many requests scheduled for one and the same instant against a slow target: each is as late
+		// as the moment it is drawn says
+		{Name: "once-slow-target", Instances: 1, Once: 8, Discard: true, ShotMs: 700, StallAt: -1},
+		{Name: "once-slow-target", Instances: 2, Once: 14, Discard: true, ShotMs: 600, StallAt: -1},
+		{Name: "once-slow-target", Instances: 1, Once: 6, From: 10, DurMs: 1000, Discard: true, ShotMs: 650, StallAt: -1},
+		{Name: "once-slow-target", Instances: 1, Once: 5, Discard: false, ShotMs: 600, StallAt: -1},
 		// schedule that started in the past: tokens overdue from the first draw on
 		{Name: "prestarted", Instances: 1, From: 20, DurMs: 3000, Discard: true, ShotMs: 1, StallAt: -1, PreStartMs: 2500},
 		{Name: "prestarted", Instances: 3, From: 30, DurMs: 3000, Discard: false, ShotMs: 1, StallAt: -1, PreStartMs: 2700},
